@@ -56,7 +56,7 @@ C12_W64 = {0, 1, 8, 24, 28, 29, 32, 33, 56, 57, 63, 64}
 def keep_c12(c, quick):
     """C12 thins the lattice to the boundary points (sanitised runs are several times slower)"""
     m = c.get("meta", {})
-    if c["fn"] in ("page_v1_dict", "make_definitions"):
+    if c["fn"] in ("page_v1_dict", "page_v2_dict", "make_definitions"):
         return False
     if m.get("pattern") in ("zeros", "alternating") and c["fn"] != "read_bitpacked1":
         return False
@@ -71,8 +71,19 @@ def keep_c12(c, quick):
     return True
 
 
+def load_corpus():
+    """minimised past disagreements / boundary witnesses (corpus/C11/*.json): complete cases, run before everything else"""
+    import glob
+    out = []
+    for p in sorted(glob.glob(os.path.join(C.VERIF, "corpus", "C11", "*.json"))):
+        c = json.load(open(p))
+        c.pop("why", None)
+        out.append(c)
+    return out
+
+
 def generate(rng, quick, c12=False):
-    cases = []
+    cases = load_corpus()
     N = 40 if quick else 120
     groups = [0, 1, 2, 5] if quick else [0, 1, 2, 3, 4, 5, 8, 15]
     # ---- A: read_bitpacked ------------------------------------------------------------------
@@ -213,6 +224,8 @@ def generate(rng, quick, c12=False):
             c["length"] = 0 if c["prefixed"] else len(o)
         if c["fn"] == "page_v1_dict":
             _pg_finish(c)
+        if c["fn"] == "page_v2_dict":
+            _pg2_finish(c)
         if c["fn"] == "delta_unpack":
             # classify by the widths the spec encoder really chose (wrapping deltas can need more bits than intended)
             mw = _delta_max_width(bytes(o))
@@ -462,7 +475,7 @@ FNS = {
 
 def worker_case(c):
     d = {k: v for k, v in c.items() if k not in ("meta", "stream", "enc_len", "trail", "cut")}
-    if c["fn"] == "page_v1_dict":
+    if c["fn"] in ("page_v1_dict", "page_v2_dict"):
         d.pop("inp", None)
     if c.get("cut"):
         d["inp"] = c["inp"][:len(c["inp"]) - 2 * c["cut"]]
@@ -1193,6 +1206,10 @@ def gen_callers(rng, quick):
                     cases.append({"fn": "page_v1_dict", "w": w, "n": n, "optional": optional, "stream": "main",
                                   "enc": ["hyb_enc", w, runs], "trail": False,
                                   "meta": {"want": want, "levels": levels, "shape": "+".join(shape)}})
+                    if max(want + [0]) < (1 << 53):
+                        cases.append({"fn": "page_v2_dict", "w": w, "n": n, "nval": nval, "optional": optional, "stream": "main",
+                                      "enc": ["hyb_enc", w, runs], "trail": False,
+                                      "meta": {"want": want, "levels": levels, "shape": "+".join(shape)}})
     return cases
 
 
@@ -1208,6 +1225,35 @@ def _pg_finish(c):
         blk = _uleb_py(((len(lv) + 7) // 8) << 1 | 1) + bytes(bits)
         head = len(blk).to_bytes(4, "little") + blk
     c["page"] = (head + bytes([c["w"]]) + body).hex()
+
+
+def _pg2_finish(c):
+    """v2 page = definition levels (bare hybrid runs, no length prefix) + width byte + index runs"""
+    body = bytes.fromhex(c["inp"])
+    head = b""
+    if c["optional"]:
+        lv = c["meta"]["levels"]
+        bits = bytearray((len(lv) + 7) // 8)
+        for i, b in enumerate(lv):
+            bits[i // 8] |= b << (i % 8)
+        head = _uleb_py(((len(lv) + 7) // 8) << 1 | 1) + bytes(bits)
+    c["dlen"] = len(head)
+    c["page"] = (head + bytes([c["w"]]) + body).hex()
+
+
+def _pg2_oracle(c, r, so, guard):
+    if r[0] != "ok":
+        return [(r[0], "core.read_data_page_v2: %r" % (r[:3],))]
+    want = c["meta"]["want"]
+    if not so or list(so[0][0]) != want:
+        return [("spec", "harness: the page's index runs do not spec-decode to the intended indices")]
+    it = iter(want)
+    full = [next(it) if lv else None for lv in c["meta"]["levels"]]
+    if r[1] != full:
+        bad = [(i, a, b) for i, (a, b) in enumerate(zip(r[1], full)) if a != b][:4]
+        return [("values", "core.read_data_page_v2 filled the output (dtype %s) differently from the spec decoding of the page at %r "
+                 "(row, got, want)" % (r[3], bad))]
+    return []
 
 
 def _pg_oracle(c, r, so, guard):
@@ -1232,4 +1278,23 @@ FNS["page_v1_dict"] = dict(model=lambda c: ("uleb_enc", 0), tagged=False, views=
                            spec=lambda c: ("hyb_dec", 0, c["w"], len(c["meta"]["want"]), _inp(c)),
                            oracle=_pg_oracle, safe=lambda c: True,
                            cls=lambda c: {"width": c["w"], "optional": c["optional"]}, trivial=lambda c: False)
+FNS["page_v2_dict"] = dict(model=lambda c: ("uleb_enc", 0), tagged=False, views=_info_views("none"),
+                           spec=lambda c: ("hyb_dec", 0, c["w"], len(c["meta"]["want"]), _inp(c)),
+                           oracle=_pg2_oracle, safe=lambda c: True,
+                           cls=lambda c: {"width": c["w"], "optional": c["optional"]}, trivial=lambda c: False)
 EXTRA_GENERATORS.append(gen_callers)
+
+
+def coq_obligations(ctx, pid):
+    """coqc of props/<pid>.v (every theorem = one obligation); thorough tier: also coqchk -o on the resulting .vo
+    (independent re-check by the standalone kernel of the theorem file and everything it depends on)."""
+    import time
+    ok, _ = ctx.coq_file(os.path.join(C.COQ, "props", pid + ".v"))
+    if ok and not ctx.quick():
+        t = time.time()
+        rc, out = C.run(["coqchk", "-silent", "-o", "-Q", os.path.join(C.COQ, "theories"), "Pq", pid + ".vo"],
+                        timeout=2400, cwd=os.path.join(C.COQ, "props"))
+        good = rc == 0 and "* Axioms: <none>" in out
+        ctx.obligation("coqchk -o props/%s.vo: the standalone checker accepts the theorem file and its dependencies, Axioms: <none>" % pid,
+                       good, out[-2000:])
+        ctx.checker_cmds.append("coqchk -silent -o -Q coq/theories Pq coq/props/%s.vo  (%.1fs)" % (pid, time.time() - t))
